@@ -421,6 +421,8 @@ class Translator:
             self.stack.pop()
         out["file"] = rec["file"]
         out["via_trait"] = rec.get("via_trait")
+        import hashlib
+        out["hash"] = hashlib.sha1(repr(rec["fn"][6].get("tokens")).encode()).hexdigest()[:16]
         self.done[key] = out
         if out["ok"]:
             self.order.append(key)
@@ -1645,7 +1647,7 @@ def main():
             out = {"ok": False, "reason": str(e)}
             tr.done[(owner, name)] = out
         status["%s::%s" % (owner, name)] = {"translated": out["ok"], "reason": out.get("reason"), "fuel": out.get("fuel", False),
-                                            "file": out.get("file")}
+                                            "file": out.get("file"), "hash": out.get("hash"), "via_trait": out.get("via_trait")}
     text = emit(tr, crate)
     skipped = ["-- not translated: %s — %s" % (k, v["reason"]) for k, v in sorted(status.items()) if not v["translated"]]
     text = text.replace("end Src\n", "\n".join(skipped) + "\nend Src\n")
@@ -1653,7 +1655,25 @@ def main():
     if old != text:
         os.makedirs(os.path.dirname(out_lean), exist_ok=True)
         open(out_lean, "w").write(text)
-    json.dump({"functions": status, "notes": crate.notes, "changed": old != text}, open(out_json, "w"), indent=1, sort_keys=True)
+    import hashlib
+
+    def strip_fns(items):
+        out = []
+        for it in items:
+            if it[0] == "fn":
+                out.append(("fn", it[1]))
+            elif it[0] == "impl":
+                out.append(it[:3] + (strip_fns(it[3]),) + it[4:])
+            elif it[0] == "trait":
+                out.append(it[:2] + (strip_fns(it[2]),) + it[3:])
+            elif it[0] == "mod":
+                out.append(it[:2] + (strip_fns(it[2]),) + it[3:])
+            else:
+                out.append(it)
+        return out
+    files = {rel: hashlib.sha1(repr(strip_fns(items)).encode()).hexdigest()[:16] for rel, items in sorted(crate.files.items())}
+    json.dump({"functions": status, "files_outside_functions": files, "notes": crate.notes, "changed": old != text},
+              open(out_json, "w"), indent=1, sort_keys=True)
     n_ok = sum(1 for v in status.values() if v["translated"])
     print("rs2lean: %d of %d functions translated%s" % (n_ok, len(status), "" if old != text else " (unchanged)"))
 
